@@ -122,23 +122,28 @@ class BaseStandaloneNetworkServerImpl(AbstractNetworkServer, Generic[_T_AsyncSer
     @_utils.inherit_doc(AbstractNetworkServer)
     def shutdown(self, timeout: float | None = None) -> None:
         with self.__bootstrap_lock.get():
-            if (portal := self.__threads_portal) is not None and (server := self.__server) is not None:
+            if (portal := self.__threads_portal) is None or (server := self.__server) is None:
+                # The server is not running: there is nothing to stop and nothing to wait for.
+                # (Waiting here would block until the end of a serve_forever() started in the meantime.)
+                return
+            # The event of the current run: a later serve_forever() call uses a new one.
+            is_shutdown = self.__is_shutdown
 
-                async def do_shutdown_with_timeout(server: AbstractAsyncNetworkServer, timeout: float) -> None:
-                    with server.backend().move_on_after(timeout):
-                        await server.shutdown()
+            async def do_shutdown_with_timeout(server: AbstractAsyncNetworkServer, timeout: float) -> None:
+                with server.backend().move_on_after(timeout):
+                    await server.shutdown()
 
-                with contextlib.suppress(RuntimeError, concurrent.futures.CancelledError), _utils.ElapsedTime() as elapsed:
-                    # If shutdown() have been cancelled, that means the scheduler itself is shutting down,
-                    # and this is what we want
-                    if timeout is None:
-                        portal.run_coroutine(server.shutdown)
-                    else:
-                        portal.run_coroutine(do_shutdown_with_timeout, server, timeout)
+            with contextlib.suppress(RuntimeError, concurrent.futures.CancelledError), _utils.ElapsedTime() as elapsed:
+                # If shutdown() have been cancelled, that means the scheduler itself is shutting down,
+                # and this is what we want
+                if timeout is None:
+                    portal.run_coroutine(server.shutdown)
+                else:
+                    portal.run_coroutine(do_shutdown_with_timeout, server, timeout)
 
-                if timeout is not None:
-                    timeout = elapsed.recompute_timeout(timeout)
-        self.__is_shutdown.wait(timeout)
+            if timeout is not None:
+                timeout = elapsed.recompute_timeout(timeout)
+        is_shutdown.wait(timeout)
 
     def serve_forever(
         self,
@@ -178,8 +183,8 @@ class BaseStandaloneNetworkServerImpl(AbstractNetworkServer, Generic[_T_AsyncSer
             if not self.__is_shutdown.is_set():
                 raise ServerAlreadyRunning("Server is already running")
 
-            self.__is_shutdown.clear()
-            server_exit_stack.callback(self.__is_shutdown.set)
+            self.__is_shutdown = is_shutdown = _threading.Event()
+            server_exit_stack.callback(is_shutdown.set)
 
             def reset_values() -> None:
                 self.__threads_portal = None
